@@ -126,14 +126,18 @@ def g_readback(tier):
         for m in range(1, 13):
             for d in (1, 15, _last(y, m)):
                 for (hh, mi, ss) in ((0, 0, 0), (12, 0, 0), (23, 59, 59)):
-                    e = Epoch(y, m, d, hh, mi, ss, utc=True)
-                    plain = Epoch(y, m, d, hh, mi, ss)
-                    off = (e.jde() - plain.jde()) * 86400.0
-                    want = (42.184 + iers_leap_count(y, m)) if y >= 1972 else 0.0
-                    ok1 = abs(off - want) < 1e-3
-                    yy, mm, dd = e.get_date(utc=True)
-                    frac = (hh * 3600 + mi * 60 + ss) / 86400.0
-                    ok2 = _same_instant(y, m, d, frac, (yy, mm, dd)) and _same_instant(y, m, d, frac, _full(e.get_full_date(utc=True)))
+                    try:
+                        e = Epoch(y, m, d, hh, mi, ss, utc=True)
+                        plain = Epoch(y, m, d, hh, mi, ss)
+                        off = (e.jde() - plain.jde()) * 86400.0
+                        want = (42.184 + iers_leap_count(y, m)) if y >= 1972 else 0.0
+                        ok1 = abs(off - want) < 1e-3
+                        yy, mm, dd = e.get_date(utc=True)
+                        frac = (hh * 3600 + mi * 60 + ss) / 86400.0
+                        ok2 = _same_instant(y, m, d, frac, (yy, mm, dd)) and _same_instant(y, m, d, frac, _full(e.get_full_date(utc=True)))
+                    except Exception as ex:               # a civil date of the stated domain must be built and read back
+                        yield ((y, m, d, hh, mi, ss), False, "raised %r" % (ex,))
+                        continue
                     yield ((y, m, d, hh, mi, ss), ok1 and ok2,
                            "offset %.3f want %.3f; read back %r" % (off, want, (yy, mm, dd)))
 
@@ -146,22 +150,26 @@ def g_override(tier):
     for (y, m, d) in dates:
         for k in range(0, 61):
             for (hh, mi, ss) in ((0, 0, 0), (12, 0, 0), (23, 59, 59)):
-                e = Epoch(y, m, d, hh, mi, ss, leap_seconds=k)
-                plain = Epoch(y, m, d, hh, mi, ss)
-                off = (e.jde() - plain.jde()) * 86400.0
-                # the property asks for 42.184 s + k for every override k in 0..60; the library documents leap_seconds=0 as
-                # 'not given' and applies no correction at all: recorded as a known finding (known_findings.json), not excused here
-                want = (42.184 + k) if y >= 1972 else 0.0
-                ok1 = abs(off - want) < 1e-3
-                yy, mm, dd = e.get_date(leap_seconds=k)
-                frac = (hh * 3600 + mi * 60 + ss) / 86400.0
-                # (the read-back through get_full_date takes the same keywords and must give the same instant)
-                ok2 = _same_instant(y, m, d, frac, (yy, mm, dd)) and _same_instant(y, m, d, frac, _full(e.get_full_date(leap_seconds=k)))
-                if k:
-                    e2 = Epoch(y, m, d, hh, mi, ss, utc=True, leap_seconds=k)
-                    ok1 = ok1 and abs((e2.jde() - plain.jde()) * 86400.0 - want) < 1e-3
-                    ok2 = ok2 and _same_instant(y, m, d, frac, e2.get_date(utc=True, leap_seconds=k)) \
-                        and _same_instant(y, m, d, frac, _full(e2.get_full_date(utc=True, leap_seconds=k)))
+                try:
+                    e = Epoch(y, m, d, hh, mi, ss, leap_seconds=k)
+                    plain = Epoch(y, m, d, hh, mi, ss)
+                    off = (e.jde() - plain.jde()) * 86400.0
+                    # the property asks for 42.184 s + k for every override k in 0..60; the library documents leap_seconds=0 as
+                    # 'not given' and applies no correction at all: recorded as a known finding (known_findings.json), not excused here
+                    want = (42.184 + k) if y >= 1972 else 0.0
+                    ok1 = abs(off - want) < 1e-3
+                    yy, mm, dd = e.get_date(leap_seconds=k)
+                    frac = (hh * 3600 + mi * 60 + ss) / 86400.0
+                    # (the read-back through get_full_date takes the same keywords and must give the same instant)
+                    ok2 = _same_instant(y, m, d, frac, (yy, mm, dd)) and _same_instant(y, m, d, frac, _full(e.get_full_date(leap_seconds=k)))
+                    if k:
+                        e2 = Epoch(y, m, d, hh, mi, ss, utc=True, leap_seconds=k)
+                        ok1 = ok1 and abs((e2.jde() - plain.jde()) * 86400.0 - want) < 1e-3
+                        ok2 = ok2 and _same_instant(y, m, d, frac, e2.get_date(utc=True, leap_seconds=k)) \
+                            and _same_instant(y, m, d, frac, _full(e2.get_full_date(utc=True, leap_seconds=k)))
+                except Exception as ex:
+                    yield ((y, m, d, hh, mi, ss, k), False, "raised %r" % (ex,))
+                    continue
                 yield ((y, m, d, hh, mi, ss, k), ok1 and ok2,
                        "offset %.3f want %.3f; read back %r" % (off, want, (yy, mm, dd)))
 
